@@ -42,7 +42,7 @@ Profile profile_for(const std::string &prop, int tier) {
         f.reads_defs = true;
     }
     else if (prop == "C09") { f.gaps = f.overlaps = true; f.reads_fsr = true; f.reads_stats = true; f.max_samples = tier ? 300000 : 40000; f.max_signals = 2; f.max_fsr_ops = 14; }
-    else if (prop == "C11") { f.annos = true; f.reads_anno = true; f.max_samples = 200; f.max_annos = tier ? 1400 : 400; f.max_payload = tier ? 70000 : 3000; f.vsr_sigs = true; f.max_signals = 3; }
+    else if (prop == "C11") { f.deep_anno_chance = tier ? 0.015 : 0; f.annos = true; f.reads_anno = true; f.max_samples = 200; f.max_annos = tier ? 1400 : 400; f.max_payload = tier ? 70000 : 3000; f.vsr_sigs = true; f.max_signals = 3; }
     else if (prop == "C12") { f.utcs = true; f.reads_utc = true; f.reads_conv = true; f.max_samples = 400; f.max_utcs = tier ? 1300 : 1100; f.max_signals = 2; }
     else if (prop == "C13") { f.users = true; f.reads_user = true; f.reads_defs = true; f.max_samples = 300; f.max_users = 12; f.max_payload = tier ? 3200000 : 200000; f.max_signals = 6; f.max_sources = 4; f.wide_ids = true; f.vsr_sigs = true; }
     else if (prop == "C15") { f.omit_ops = true; f.cblocks = true; f.reads_fsr = true; f.reads_stats = true; f.max_samples = tier ? 400000 : 50000; f.max_signals = 2; }
@@ -160,6 +160,7 @@ Plan gen_plan(const Profile &pf, uint64_t seed) {
     for (int i = 0; i < nsrc; ++i) { int id; do { id = pf.wide_ids ? (int) r.range(1, 255) : (int) r.range(1, 8); } while (std::find(srcs.begin(), srcs.end(), id) != srcs.end()); srcs.push_back(id); }
     // ---- signals
     int nsig = (int) r.range(pf.min_signals, pf.max_signals);
+    const bool deep_annos = pf.deep_anno_chance > 0 && r.chance(pf.deep_anno_chance);
     std::vector<SigPlan> sigs;
     std::vector<int> types = pf.types;
     if (types.empty()) for (int i = 0; i < DT_COUNT; ++i) types.push_back(i);
@@ -180,6 +181,7 @@ Plan gen_plan(const Profile &pf, uint64_t seed) {
         static const uint32_t dfs[] = {0, 2, 3, 10, 100, 1};
         s.p[5] = dfs[r.below(6)]; s.p[6] = dfs[r.below(6)];
         if (pf.prop == "C11" && s.p[5] == 100 && r.chance(0.8)) s.p[5] = dfs[1 + r.below(3)];
+        if (deep_annos && sigs.empty()) s.p[5] = 2;
         if (pf.prop == "C12" && s.p[6] == 100 && r.chance(0.8)) s.p[6] = dfs[1 + r.below(3)];
         s.nd = approx_norm(s.dtype, s.p);
         static const int64_t firsts[] = {0, 0, 0, 5, 1000, -7, -100000, 1LL << 40, -(1LL << 40)};
@@ -252,6 +254,8 @@ Plan gen_plan(const Profile &pf, uint64_t seed) {
         if (!allow || !pf.annos) return out;
         int c = (int) r.below(6);
         int n = c == 0 ? 0 : c == 1 ? (int) r.range(1, 5) : (int) r.range(1, std::max(1, pf.max_annos));
+        const bool deep = deep_annos && !sigs.empty() && sig == sigs[0].sig;
+        if (deep) n = (int) r.range(33000, 70000);
         int64_t t = t0 + r.range(-3, 3);
         for (int i = 0; i < n; ++i) {
             Op o; o.kind = OP_ANNO; o.sig = sig; o.prod = prod;
@@ -261,7 +265,9 @@ Plan gen_plan(const Profile &pf, uint64_t seed) {
             o.st = (int) r.range(1, 3);
             float y = r.chance(0.3) ? NAN : (float) r.range(-1000, 1000) / 8.0f; memcpy(&o.ybits, &y, 4);
             int pc = (int) r.below(8);
+            if (deep) pc = 1 + (int) r.below(3);
             o.n = pc == 0 ? (o.st == 1 ? 0 : 1) : pc < 6 ? r.range(1, 40) : r.range(1, pf.max_payload);
+            if (deep) o.n = r.range(1, 4);
             if (pf.engine_d && P.mrb_size) o.n = std::min<int64_t>(o.n, std::max<int64_t>(1, (int64_t) P.mrb_size - 60));
             o.gs = r.next();
             out.push_back(o);
